@@ -81,8 +81,13 @@ def validated(c, v, client: bool = False) -> Optional[dict]:
 
 
 def getter_outcome(c) -> Optional[dict]:
+    """Outcome of `get_value`'s use of the getter callback: the answer converted by `to_valid_value` and
+    accepted by `valid_value_or_raise` (an answer that is not one of the declared valid values counts as a
+    raising getter, /repo e2cce9e), or None when any of the three raised."""
     try:
-        return {"v": c.to_valid_value(c.getter_callback())}
+        v = c.to_valid_value(c.getter_callback())
+        c.valid_value_or_raise(v)
+        return {"v": v}
     except Exception:  # noqa: BLE001
         return None
 
@@ -563,6 +568,10 @@ BOUNDARY_PROGRAMS = [
     ["read_one", "read_many", ("getter", "raise"), "read_many", "read_unknown", "read_all"],
     # an override whose re-validation raises TypeError after the properties were updated
     ["read_all_nv", "read_all", ("override_bad",), "read_all_nv", "read_all", "read_one"],
+    # a getter whose answer is not one of the declared valid values is a failed read (/repo e2cce9e):
+    # -70402 for its entry, GET /accessories fails like for any raising getter, nothing stale afterwards
+    ["read_all", "read_one", ("getter_invalid",), "read_one", "read_many", "read_all", ("getter_change",), "read_one", "read_all",
+     ("getter_invalid",), ("getter", "off"), "read_all", "read_one"],
     # same-typed characteristics (one loader): fill the caches, override exactly one instance, read the
     # siblings, update a sibling's value, read again
     ["siblings", "read_all", "read_all_nv", ("override",), "read_all", "read_all_nv", "read_sib", ("sib_set_value",),
@@ -686,6 +695,9 @@ def gen_history(ctx: Ctx, pool, program=None, n_ops: Optional[int] = None) -> Hi
         if ("override_bad",) in program:
             numeric = [x for x in cands if x[3].properties["Format"] in ref.NUMERIC_FORMATS and not x[3].properties.get("ValidValues")]
             cands = numeric or cands
+        if ("getter_invalid",) in program:
+            with_vv = [x for x in cands if x[3].properties.get("ValidValues") and x[3].properties["Format"] in ref.NUMERIC_FORMATS]
+            cands = with_vv or cands
         if "siblings" in program:
             # a characteristic type that occurs at least twice outside the information service
             by_type: Dict[str, list] = {}
@@ -728,6 +740,10 @@ def gen_history(ctx: Ctx, pool, program=None, n_ops: Optional[int] = None) -> Hi
                 h.apply({"op": "set_value", "obj": n, "value": _other_value(rng, c)})
             elif step[0] == "getter":
                 h.apply({"op": "getter", "obj": n, "mode": step[1], "value": _other_value(rng, c)})
+            elif step[0] == "getter_invalid":
+                vv = c.properties.get("ValidValues")
+                bad = max(vv.values()) + 7 if vv and c.properties["Format"] in ref.NUMERIC_FORMATS else "not-a-number"
+                h.apply({"op": "getter", "obj": n, "mode": "value", "value": bad})
             elif step[0] == "getter_change":
                 h.apply({"op": "getter", "obj": n, "mode": "value", "value": _other_value(rng, c)})
             elif step[0] == "override":
